@@ -55,9 +55,9 @@ Proof. exact triples_roundtrip. Qed.
 Print Assumptions C15_triples.
 
 Example C15_nonvacuous :
-  from_curie colon (curie (mk CNamed [71;79] [49;58;50] (Some [110]))%N) = Val ([71;79], [49;58;50])%N /\
-  from_curie colon [110;111]%N = Raise ENoCURIEDelimiter /\
-  ref_eq (mk CRef [97] [49] None) (mk CNamed [97] [49] (Some [110]))%N = true /\
-  ref_eq (mk CTuple [97] [49] None) (mk CRef [97] [49] None)%N = false /\
-  ref_lt (mk CRef [97] [50] None) (mk CRef [97;97] [49] None)%N = true.
+  (from_curie colon (curie (mk CNamed [71;79] [49;58;50] (Some [110]))) = Val ([71;79], [49;58;50]) /\
+   from_curie colon [110;111] = Raise ENoCURIEDelimiter /\
+   ref_eq (mk CRef [97] [49] None) (mk CNamed [97] [49] (Some [110])) = true /\
+   ref_eq (mk CTuple [97] [49] None) (mk CRef [97] [49] None) = false /\
+   ref_lt (mk CRef [97] [50] None) (mk CRef [97;97] [49] None) = true)%N.
 Proof. vm_compute. auto. Qed.
